@@ -116,6 +116,7 @@ TILDE_SYM = (
 
 RE_ANCHOR = re.compile(r'^/+')
 RE_WIN_ANCHOR = re.compile(r'^(?:\\\\|/)+')
+RE_UNIX_SEP_RUN = re.compile(r'(?:\\?/)*')
 RE_POSIX = re.compile(r':(alnum|alpha|ascii|blank|cntrl|digit|graph|lower|print|punct|space|upper|word|xdigit):\]')
 
 SET_OPERATORS = frozenset(('&', '~', '|'))
@@ -1386,9 +1387,12 @@ class WcParse(Generic[AnyStr]):
                     current.append(value)
                 self.consume_path_sep(i)
                 current.append(sep)
-            elif not capture and len(current) > 1 and current[-2] == f'({globstar})':
-                # A `***` merged into a preceding `**`: the merged `globstar` follows links, so it must not capture.
-                current[-2] = globstar
+            else:
+                # Merged into the preceding `globstar`; the separators behind it still count as one.
+                self.consume_path_sep(i)
+                if not capture and len(current) > 1 and current[-2] == f'({globstar})':
+                    # A `***` merged into a preceding `**`: the merged `globstar` follows links, so it must not capture.
+                    current[-2] = globstar
             if self.realpath and dir_only and i.index >= len(i._string):
                 # The pattern ends with `**/`
                 current[-1] = _GLOBSTAR_DIR_DIV.format(self.sep)
@@ -1575,10 +1579,8 @@ class WcParse(Generic[AnyStr]):
                 if count > 0 and count % 2:
                     i.rewind(1)
             else:
-                c = '/'
-                while c == '/':
-                    c = next(i)
-                i.rewind(1)
+                # Plain and escaped slashes alike
+                i.match(RE_UNIX_SEP_RUN)
         except StopIteration:
             pass
 
